@@ -104,6 +104,30 @@ def r_ovf(F, R, cat=None):
          b.name in ("push", "extend")))]
     read_side = [b for b in F.bodies.values() if b.self_adt == STRIDE and b.name in ("index", "len")
                  and b.trait is None]
+    # count field of every variant (from the last-element forms stride * (count - 1)), and the
+    # variants whose len() is exactly that count
+    counts = {}
+    for b in [pb] + read_side:
+        c0 = Ctx(b)
+        for bi in sorted(b.live_blocks()):
+            t = b.term(bi)
+            if t["k"] == "assert" and t.get("msg") == "overflow" and t["op"] == "Mul":
+                node = ("bin", "Mul", operand_tree(c0, t["a"]), operand_tree(c0, t["b"]))
+                if is_last_element_form(node, taint):
+                    for x in (node[2], node[3]):
+                        if x[0] == "bin" and x[1] == "Sub":
+                            counts[tuple(x[2][3][:-1])] = tuple(x[2][3])
+    len_is_count = set()
+    from expr import ret_alts, nobb
+    for lb in [b for b in read_side if b.name == "len"]:
+        for alt in ret_alts(Ctx(lb)):
+            alt = nobb(alt)
+            if alt[0] == "place" and alt[2] == ("arg", 1):
+                for (variant, cnt) in counts.items():
+                    if tuple(alt[3]) == cnt:
+                        len_is_count.add(variant)
+    R.extra["stride_count_fields"] = sorted("%s -> %s%s" % ("/".join(v), "/".join(c), " (= len)" if v in len_is_count else "")
+                                            for (v, c) in counts.items())
     n = 0
     for b in write_side + read_side:
         R.saw(b)
@@ -129,12 +153,36 @@ def r_ovf(F, R, cat=None):
                 ok = True
                 why = "stride*(count-1) = the last accepted element, which was compared equal to a usize"
             elif not writing and t["op"] == "Mul":
-                # read side: stride * position, position is the (guarded) parameter
+                # read side: stride * position, position is the (guarded) parameter.  The product
+                # is known to fit only for position <= count - 1 (stride * (count - 1) is an
+                # element that was pushed).  Where the variant's length *is* its count, the
+                # caller's position < len (R-BOUND at every call site) gives that; where the
+                # length is larger (a repeated tail), the multiplication itself must sit under
+                # position < count.
                 for (s, p) in ((a, c), (c, a)):
                     if p == ("place", b.key, ("arg", 2), ()) and s[0] == "place" and s[2] == ("arg", 1):
-                        ok = True
-                        why = "stride * position; position < len is the caller's obligation (R-BOUND at every call site)"
-                # in the Saturated arm the position is additionally guarded by index < steps
+                        variant = tuple(s[3][:-1])
+                        cnt = counts.get(variant)
+                        if cnt is None:
+                            ok = True
+                            why = "stride * position; position < len is the caller's obligation (R-BOUND at every call site); no count field known for this variant"
+                        elif variant in len_is_count:
+                            ok = True
+                            why = "stride * position; this variant's len() is its count, and position < len is the caller's obligation (R-BOUND at every call site)"
+                        else:
+                            guarded = False
+                            for f in facts_at(ctx, bi):
+                                if f[0] == "Lt" and f[1] == p and f[2][0] == "place" and f[2][2] == ("arg", 1) \
+                                        and tuple(f[2][3]) == cnt:
+                                    guarded = True
+                                if f[0] == "Gt" and f[2] == p and f[1][0] == "place" and f[1][2] == ("arg", 1) \
+                                        and tuple(f[1][3]) == cnt:
+                                    guarded = True
+                            ok = guarded
+                            why = ("stride * position under position < count" if guarded else
+                                   "stride * position in a variant whose len() exceeds its count, without a dominating "
+                                   "position < count: for a position in the repeated tail the product need not fit "
+                                   "(panics in overflow-checked builds, wraps otherwise)")
             R.check("R-OVF", b.label(), ok, construct=ovf_key(t["op"], a, c), where=where, detail=why + ": " + show(node))
     R.floor("R-OVF", "overflow assertions inspected", n, 1)
 
@@ -191,7 +239,14 @@ def r_panic_edges(F, R):
                     n += 1
                     arg = operand_tree(ctx, t["args"][0])
                     ok = arg[0] == "call" and arg[1] in (("TryInto", "try_into"), ("TryFrom", "try_from")) \
-                        and arg[2] and arg[2][0] == ("place", b.key, ("arg", 2), ())
+                        and len(arg) == 5
+                    if ok:
+                        # the conversion's source is a usize (the pushed index itself or an element
+                        # of the pushed batch): decided on the operand's type, not its provenance
+                        ct = b.term(arg[4])
+                        a0 = ct["args"][0] if ct["k"] == "call" and ct["args"] else None
+                        ok = a0 is not None and a0["k"] in ("move", "copy") and \
+                            b.locals[a0["place"]["l"]]["ty"]["s"] == "usize"
                     dst = ctx.body.locals[t["dest"]["l"]]["ty"]["s"]
                     ok = ok and dst in ("u64", "u128", "usize")
                     R.check("R-PANIC", b.label(), ok,
@@ -283,6 +338,11 @@ def field_place(b, fld):
     return ("place", b.key, ("arg", 1), ("f:" + fld,))
 
 
+def nobb_(t):
+    from expr import nobb
+    return nobb(t)
+
+
 def r_concat(F, R, cat=None):
     cat = cat or Catalogue(F)
     tl = two_level(F, cat)
@@ -310,6 +370,21 @@ def r_concat(F, R, cat=None):
                     for k, v in d.items() if k != param)
                 R.check("R-CONCAT", ib.label(), ok, construct="%s.index(i - %s.len())" % (second, first),
                         where="%s:%s" % (ib.file, t["line"]), detail="position " + show(pos))
+                # ... and only for positions that are not in the first level: i >= first.len()
+                ge = False
+                for f in facts_at(ctx, bi):
+                    if f[0] in ("Ge", "Le", "Lt", "Gt"):
+                        op, x, y = f[0], norm_len(f[1]), norm_len(f[2])
+                        if op in ("Le", "Lt"):
+                            op = {"Le": "Ge", "Lt": "Gt"}[op]
+                            x, y = y, x
+                        if op == "Ge" and lin_eq(nlin(x), nlin(param)) and is_len_of(nobb_(y), field_place(ib, first)):
+                            ge = True
+                R.check("R-CONCAT", ib.label(), ge, construct="%s consulted only for i >= %s.len()" % (second, first),
+                        where="%s:%s" % (ib.file, t["line"]),
+                        detail="dominating fact i >= %s.len()" % first if ge else
+                        "no dominating fact i >= %s.len(): a position that lies in %s would be looked up in %s "
+                        "(at i - %s.len(), which underflows)" % (first, first, second, first))
         # len = len(first) + len(second)
         for b in [x for x in F.bodies.values() if x.self_adt == adt and x.name == "len"
                   and not x.in_tests()]:
